@@ -55,6 +55,7 @@ func (c *Ctx) ruleE3() {
 	}
 	fieldType := map[*types.Var]types.Type{}
 	var creations []creation
+	nCreate := 0
 	for _, f := range c.RepoFns {
 		if c.isTestFile(f.Pos()) {
 			continue
@@ -74,6 +75,9 @@ func (c *Ctx) ruleE3() {
 			}
 			d := derived([]ssa.Value{call.Value()}, flowOpts{intoClosures: true})
 			creations = append(creations, creation{t, call, d})
+			if !c.isControlFn(f) {
+				nCreate++
+			}
 			for v := range d {
 				if refs := v.Referrers(); refs != nil {
 					for _, r := range *refs {
@@ -89,7 +93,7 @@ func (c *Ctx) ruleE3() {
 			}
 		})
 	}
-	c.floor("E3", "emitter creations", len(creations), 12)
+	c.floor("E3", "emitter creations", nCreate, 12)
 	nEmit := 0
 	for _, f := range c.RepoFns {
 		if c.isTestFile(f.Pos()) {
@@ -119,7 +123,9 @@ func (c *Ctx) ruleE3() {
 			if want == nil {
 				return // emitter of unknown provenance (e.g. interface parameter): not an E3 site
 			}
-			nEmit++
+			if !c.isControlFn(f) {
+				nEmit++
+			}
 			cons := fmt.Sprintf("%s→Emit#%d(%s)", fnKey(f), k, namedName(want))
 			k++
 			if types.Identical(vt, want) {
@@ -455,8 +461,13 @@ func (c *Ctx) isEffect(in ssa.Instruction) bool {
 
 func (c *Ctx) ruleB1() {
 	subs := c.subscriptions()
-	c.Counts["B1:bus subscriptions"] = len(subs)
-	c.floor("B1", "bus subscriptions", len(subs), 6)
+	nSubs := 0
+	for _, s := range subs {
+		if !c.isControlFn(s.fn) {
+			nSubs++
+		}
+	}
+	c.floor("B1", "bus subscriptions", nSubs, 6)
 	replPrivate, replPos := c.replicatorBusPrivate()
 	nScoped := 0
 	for _, s := range subs {
@@ -472,7 +483,9 @@ func (c *Ctx) ruleB1() {
 		if len(scopedT) == 0 {
 			continue
 		}
-		nScoped++
+		if !c.isControlFn(s.fn) {
+			nScoped++
+		}
 		host := topLevel(s.fn)
 		fk := fnKey(s.fn)
 		// the consumer: the function (closure) that reads sub.Out()
